@@ -15,8 +15,11 @@ import (
 	"time"
 
 	"github.com/tetratelabs/wazero"
+	"github.com/tetratelabs/wazero/imports/wasi_snapshot_preview1"
+	"github.com/tetratelabs/wazero/internal/wasm"
 	"github.com/tetratelabs/wazero/verifharness/common"
 	"github.com/tetratelabs/wazero/verifharness/wasix"
+	"github.com/tetratelabs/wazero/verifharness/wb"
 )
 
 type call struct {
@@ -118,11 +121,16 @@ func runCall(env *wasix.Env, c call) real {
 		sub[16] = byte(c.A)
 		sub[24], sub[25], sub[26], sub[27] = 0, 0xca, 0x9a, 0x3b // 1 s
 		env.Mem.Write(1024, sub)
+		if sleptForReal { // already established in this process; every further call would cost another second
+			r.Raw = "slept-for-real"
+			return r
+		}
 		t0 := time.Now()
 		e, err = env.Call("poll_oneoff", 1024, 2048, 1, 4096)
 		r.V = int64(env.U32(4096))
 		if time.Since(t0) > 500*time.Millisecond {
 			r.Raw = "slept-for-real"
+			sleptForReal = true
 		}
 	case "sched_yield":
 		e, err = env.Call("sched_yield")
@@ -134,6 +142,149 @@ func runCall(env *wasix.Env, c call) real {
 	return r
 }
 
+// sleptForReal: a poll_oneoff call in this process took real time.
+var sleptForReal bool
+
+// wasiSigs: parameter types (true = i64) of the WASI functions the programs use; all return an errno.
+var wasiSigs = map[string][]bool{
+	"clock_time_get": {false, true, false}, "clock_res_get": {false, false}, "random_get": {false, false},
+	"args_sizes_get": {false, false}, "args_get": {false, false}, "environ_sizes_get": {false, false}, "environ_get": {false, false},
+	"fd_read": {false, false, false, false}, "fd_write": {false, false, false, false}, "fd_prestat_get": {false, false},
+	"path_open": {false, false, false, false, false, true, true, false, false}, "sock_accept": {false, false, false},
+	"fd_readdir": {false, false, false, true, false}, "fd_fdstat_get": {false, false}, "poll_oneoff": {false, false, false, false},
+	"sched_yield": {}, "fd_filestat_set_size": {false, true},
+}
+
+type planned struct {
+	name string
+	args []uint64
+}
+
+const (
+	lowSize  = 8192  // the window every call works in (runCall's addresses are below it)
+	areaBase = 65536 // area k (inputs before, outputs after the k-th call) starts at areaBase + k*lowSize
+	errBase  = 61440 // errno of the j-th WASI call of the sequence at errBase + 4*j
+)
+
+// runSeq executes the WHOLE program inside one guest function: the WASI calls follow each other in one activation, each
+// preceded by a call that leaves ones in every bit of an i64 argument slot (fd_filestat_set_size(0, -1)), so that what a
+// WASI function sees of an i32 argument does not depend on what the previous call left behind. Observations are read
+// exactly as in the call-by-call mode.
+func runSeq(ctx context.Context, engine string, mc wazero.ModuleConfig, prog []call) ([]real, error) {
+	// pass 1: plan - run the call-by-call code with a hook that only records the calls and the prepared window
+	cfg := wazero.NewRuntimeConfigInterpreter()
+	if engine == "compiler" {
+		cfg = wazero.NewRuntimeConfigCompiler()
+	}
+	rt := wazero.NewRuntimeWithConfig(ctx, cfg)
+	defer rt.Close(ctx)
+	if _, err := wasi_snapshot_preview1.Instantiate(ctx, rt); err != nil {
+		return nil, err
+	}
+	scratch := wb.New()
+	pages := uint32(areaBase/65536 + (len(prog)*lowSize+65535)/65536 + 1)
+	scratch.Memory(pages, &pages, "memory")
+	smod, err := rt.InstantiateWithConfig(ctx, scratch.Build(), wazero.NewModuleConfig().WithName("scratch"))
+	if err != nil {
+		return nil, err
+	}
+	env := &wasix.Env{Ctx: ctx, Rt: rt, Mod: smod, Mem: smod.Memory()}
+	var plan [][]planned
+	inputs := make([][]byte, len(prog))
+	for k, c := range prog {
+		env.Mem.Write(0, make([]byte, lowSize))
+		var calls []planned
+		env.CallHook = func(name string, args []uint64) (uint32, error) {
+			if inputs[k] == nil { // the window as prepared for the first WASI call of this step
+				b, _ := env.Mem.Read(0, lowSize)
+				inputs[k] = append([]byte{}, b...)
+			}
+			calls = append(calls, planned{name, append([]uint64{}, args...)})
+			return 0, nil
+		}
+		runCall(env, c)
+		if inputs[k] == nil {
+			inputs[k] = make([]byte, lowSize)
+		}
+		plan = append(plan, calls)
+	}
+	// pass 2: the guest function
+	m := wb.New()
+	idx := map[string]uint32{}
+	need := []string{"fd_filestat_set_size"}
+	for _, calls := range plan {
+		for _, pc := range calls {
+			need = append(need, pc.name)
+		}
+	}
+	for _, n := range need {
+		if _, ok := idx[n]; ok {
+			continue
+		}
+		sig, ok := wasiSigs[n]
+		if !ok {
+			return nil, fmt.Errorf("no signature for %s", n)
+		}
+		var ps []wasm.ValueType
+		for _, is64 := range sig {
+			if is64 {
+				ps = append(ps, wb.I64)
+			} else {
+				ps = append(ps, wb.I32)
+			}
+		}
+		idx[n] = m.ImportFunc("wasi_snapshot_preview1", n, ps, []wasm.ValueType{wb.I32})
+	}
+	m.Memory(pages, &pages, "memory")
+	var body []byte
+	j := 0
+	for k, calls := range plan {
+		area := int32(areaBase + k*lowSize)
+		body = append(body, wb.Cat(wb.I32Const(0), wb.I32Const(area), wb.I32Const(lowSize), wasm.OpcodeMiscPrefix, wasm.OpcodeMiscMemoryCopy, 0, 0)...)
+		for _, pc := range calls {
+			body = append(body, wb.Cat(wb.I32Const(0), wb.I64Const(-1), wb.Call(idx["fd_filestat_set_size"]), wasm.OpcodeDrop)...)
+			body = append(body, wb.I32Const(int32(errBase+4*j))...)
+			for i, a := range pc.args {
+				if wasiSigs[pc.name][i] {
+					body = append(body, wb.I64Const(int64(a))...)
+				} else {
+					body = append(body, wb.I32Const(int32(uint32(a)))...)
+				}
+			}
+			body = append(body, wb.Cat(wb.Call(idx[pc.name]), wasm.OpcodeI32Store, wb.MemArg(2, 0))...)
+			j++
+		}
+		body = append(body, wb.Cat(wb.I32Const(area), wb.I32Const(0), wb.I32Const(lowSize), wasm.OpcodeMiscPrefix, wasm.OpcodeMiscMemoryCopy, 0, 0)...)
+	}
+	m.AddFunc(wb.Func{Body: body, Export: "seq"})
+	gmod, err := rt.InstantiateWithConfig(ctx, m.Build(), mc)
+	if err != nil {
+		return nil, err
+	}
+	gmem := gmod.Memory()
+	for k := range prog {
+		gmem.Write(uint32(areaBase+k*lowSize), inputs[k])
+	}
+	if _, err := gmod.ExportedFunction("seq").Call(ctx); err != nil {
+		return nil, fmt.Errorf("seq: %w", err)
+	}
+	// pass 3: read the outputs back through the same code
+	genv := &wasix.Env{Ctx: ctx, Rt: rt, Mod: gmod, Mem: gmem}
+	var obs []real
+	j = 0
+	for k, c := range prog {
+		genv.CallHook = func(name string, args []uint64) (uint32, error) {
+			out, _ := gmem.Read(uint32(areaBase+k*lowSize), lowSize)
+			gmem.Write(0, append([]byte{}, out...))
+			e, _ := gmem.ReadUint32Le(uint32(errBase + 4*j))
+			j++
+			return e, nil
+		}
+		obs = append(obs, runCall(genv, c))
+	}
+	return obs, nil
+}
+
 // Child is `driver sysdef-child -in file`: runs every program on both engines, twice from ONE ModuleConfig value,
 // and prints the observations.
 func Child(args []string) {
@@ -142,6 +293,11 @@ func Child(args []string) {
 		common.Fatalf("read: %v", err)
 	}
 	ctx := context.Background()
+	if os.Getenv("VERIF_SD_CTX") == "cancel" { // the embedder's context can be cancelled (it never is): nothing may depend on that
+		c, cancel := context.WithCancel(ctx)
+		defer cancel()
+		ctx = c
+	}
 	for _, l := range lines {
 		var p program
 		if err := json.Unmarshal(l, &p); err != nil {
@@ -161,6 +317,15 @@ func Child(args []string) {
 				}
 				env.Close()
 				out[fmt.Sprintf("%s#%d", engine, inst)] = obs
+			}
+			// the same program executed by ONE guest function
+			if sleptForReal {
+				continue
+			}
+			if obs, err := runSeq(ctx, engine, mc, p.Prog); err != nil {
+				common.Fatalf("in-guest sequence: %v", err)
+			} else {
+				out[engine+"#in-one-guest-function"] = obs
 			}
 		}
 		common.Emit(out)
@@ -191,7 +356,7 @@ func Main(args []string) {
 	}
 	variants := []variant{
 		{"plain", []string{"TZ=UTC"}, nil, base, "", 0},
-		{"env+args+stdin", []string{"TZ=UTC", "VERIF_SECRET=" + secret, "HOME=/" + secret}, []string{secret}, base, secret + "\n", 0},
+		{"env+args+stdin+cancelable-context", []string{"TZ=UTC", "VERIF_SECRET=" + secret, "HOME=/" + secret, "VERIF_SD_CTX=cancel"}, []string{secret}, base, secret + "\n", 0},
 		{"tz+cwd+later", []string{"TZ=" + zone}, nil, os.TempDir(), "", 1200 * time.Millisecond},
 	}
 	outs := make([][]map[string][]real, len(variants))
